@@ -30,6 +30,7 @@
 (*   fwd_n    distance of the stack's forward / link poses from the model   *)
 (*   lim_reported  Kinematics::constraints() of the stack equals the limits     *)
 (*            given to the innermost robot (or none)                       *)
+(*   n_answers  length of the returned list (answers: its first sixteen)       *)
 (*   rep_prad distance (1e-12 rad) of the continuation answers from whole-turn   *)
 (*            shifts of the plain solutions they stand for                      *)
 (*   twin_shift5  2 * sign5 * offset5 (AU): the wrist twin negates the     *)
@@ -76,7 +77,8 @@ Complete(c) ==
            THEN {"C02:originating-configuration-missing"} ELSE {})
           \cup (IF ~c.lim /\ \E i \in 1..Len(qs) : ~\E k \in 1..Len(qs) : SameMod(qs[k], Twin(c, qs[i]))
                 THEN {"C02:wrist-twin-missing"} ELSE {})
-          \cup (IF \E i, k \in 1..Len(qs) : i < k /\ SameMod(qs[i], qs[k]) THEN {"C02:duplicate-answers"} ELSE {})
+          \* (more than sixteen answers - the harness passes on the first sixteen - cannot be distinct: there are eight branches)
+          \cup (IF c.n_answers > 16 \/ \E i, k \in 1..Len(qs) : i < k /\ SameMod(qs[i], qs[k]) THEN {"C02:duplicate-answers"} ELSE {})
           \cup (IF ~c.lim /\ \E i \in 1..Len(c.resolve) : c.resolve[i] # Len(qs)
                 THEN {"C02:answer-set-not-closed"} ELSE {})
           \cup (IF ~c.lim /\ (Len(qs) % 2 = 1 \/ Len(qs) > 8) THEN {"C02:odd-or-too-many-answers"} ELSE {})
